@@ -26,6 +26,7 @@ import Vita.C09.LemmasTable
 import Vita.C09.LemmasXrff
 import Vita.C09.LemmasCat
 import Vita.C09.LemmasHist
+import Vita.C09.LemmasSniffQ
 
 namespace Vita.C09
 
@@ -759,6 +760,33 @@ theorem sniffed_read_eq_explicit (cfg : Cfg) (o : NumOracle F) (d : Char) (hdr :
   unfold readCsv resolveDialect
   simp [hp.1, hp.2, hs, hd0]
 
+/-- **sniff_agrees_quoted.**  `sniff_agrees` for tables written WITH quoting – the class `UnambiguousQ`
+    (LemmasSniffQ.lean): as `Unambiguous`, and any cell may be written between quotes (every cell, only the
+    numbers, only the names, any mixture; numbers of any widths; names in lower case, Capitalised, UPPER
+    case) provided that a name as the header pass sees it – with its quotes, if quoted – is not a number
+    (so `"1980"` is a name, `1980` is not) and that, when there is no header line, the cells of the first row are
+    not quoted: the sniffer finds the delimiter and says whether there is a header line. -/
+theorem sniff_agrees_quoted (o : NumOracle F) (n : Nat) (hn : 1 ≤ n) (d : Char) (hdr : Option (List (Str × Bool)))
+    (rows : List (List (Str × Bool))) (h : UnambiguousQ o d hdr rows) :
+    sniffer o n (splitLines (renderQ d (hdr.toList ++ rows))) = (d, hdr.isSome) :=
+  sniffer_unambiguousQ o n hn d hdr rows h
+
+/-- consequently, on an unambiguous table every one of the four ways of giving the dialect – delimiter explicit
+    or left to the sniffer × `header()` / `no_header()` or left to the sniffer – is the same import, into a
+    dataframe in any state -/
+theorem sniffed_read_eq_explicit_quoted (cfg : Cfg) (o : NumOracle F) (d : Char) (hdr : Option (List (Str × Bool)))
+    (rows : List (List (Str × Bool))) (h : UnambiguousQ o d hdr rows) (p : Params) (prior : DF F)
+    (hn : 1 ≤ cfg.sniffLines)
+    (hpd : p.delim = '\x00' ∨ p.delim = d) (hph : p.header = none ∨ p.header = some hdr.isSome) :
+    readCsvFrom cfg o p prior (renderQ d (hdr.toList ++ rows)) =
+    readCsvFrom cfg o { p with delim := d, header := some hdr.isSome } prior (renderQ d (hdr.toList ++ rows)) := by
+  have hs := sniffer_unambiguousQ o cfg.sniffLines hn d hdr rows h
+  have hd0 : d ≠ '\x00' := by
+    have := h.delim
+    intro hd; subst hd; simp [preferred] at this
+  unfold readCsvFrom resolveDialect
+  rcases hpd with hpd | hpd <;> rcases hph with hph | hph <;> simp [hpd, hph, hs, hd0]
+
 /-- **explicit_wins.**  For every file and every parameter setting: an explicit delimiter and an
     explicit `header()` / `no_header()` are the ones `read_csv` uses, whatever the sniffer thinks of
     the file and whether or not it runs for the other setting; the sniffer's values are used only for
@@ -1162,6 +1190,30 @@ example : Unambiguous digitOracle ',' (some ["x".toList, "y".toList])
     rcases hc with rfl | rfl <;>
       simp [HeadCell, PlainCell, preferred, isBlank, isSpace, isNumber, trim, digitOracle] <;> decide
 
+/-- `"x","y" / "10","2" / "3","456"` (every cell quoted, lower-case names, numbers of different widths) is an
+    unambiguous table in the sense of `sniff_agrees_quoted`, for an oracle that – like `strtod` – does not take
+    a text that starts with a quote for a number -/
+example : UnambiguousQ digitOracle ',' (some [("x".toList, true), ("y".toList, true)])
+    [[("10".toList, true), ("2".toList, true)], [("3".toList, true), ("456".toList, true)]] where
+  delim := by simp [preferred]
+  width := ⟨2, by omega, by intro r hr; simp at hr; rcases hr with rfl | rfl <;> rfl,
+    by intro h hh; simp at hh; subst hh; rfl⟩
+  two := by simp
+  data := by
+    intro r hr c hc
+    simp at hr
+    rcases hr with rfl | rfl <;> simp at hc <;> rcases hc with rfl | rfl <;>
+      simp [DataCell, PlainCell, preferred, isBlank, isSpace, isNumber, trim, digitOracle, isAlpha, isUpper, isLower] <;>
+      decide
+  head := by
+    intro h hh c hc
+    simp at hh
+    subst hh
+    simp at hc
+    rcases hc with rfl | rfl <;>
+      simp [seenQ, PlainCell, preferred, isBlank, isSpace, isNumber, trim, digitOracle] <;> decide
+  bare := by intro h; cases h
+
 /-- `2019;2020 / 1;2` (column names that are numbers: the sniffer votes "no header") meets the
     hypotheses of `explicit_header_sniffed_delimiter` -/
 example : readCsv {} digitOracle { header := some true } (renderPlain ';' [["2019".toList, "2020".toList], ["1".toList, "2".toList]]) =
@@ -1195,5 +1247,124 @@ example : ∃ df : DF Nat, readXrff {} digitOracle (fun _ => true)
       simp [XHeader.k, XHeader.cols, colOf, colOfOut, fromWeka, rot, Classif, outDom, specRows, outVal, encode,
         lookup, isNumber, trim, isSpace, digitOracle])
   exact ⟨df, h⟩
+
+/-! ### histories -/
+
+/-- the state `toyTable` leaves: columns `name` (output) / `n`, classes `a,b` ↦ 0 and `c` ↦ 1, two examples -/
+def toyPrior : DF Nat :=
+  { cols := [{ name := "name".toList, dom := .dbl }, { name := "n".toList, dom := .dbl }],
+    classes := [("a,b".toList, 0), ("c".toList, 1)],
+    examples := [{ input := [.dbl 1], output := .int 0 }, { input := [.dbl 2], output := .int 1 }] }
+
+example : (readCsv {} digitOracle { delim := ',', header := some true } (toyTable.render ',' [])).toOption.map
+    (fun df => (df.cols, df.classes, df.examples)) = some (toyPrior.cols, toyPrior.classes, toyPrior.examples) := by
+  rfl
+
+/-- a second table of the same schema, `name,n / c,5 / "a,b",7 / d,9` (an old label first, a new one last) -/
+def toyTable2 : Table :=
+  { header := some [("name".toList, false), ("n".toList, false)],
+    row0 := [("c".toList, false), ("5".toList, false)],
+    rest := [[("a,b".toList, true), ("7".toList, false)], [("d".toList, false), ("9".toList, false)]] }
+
+/-- the hypotheses of `rows_faithful_append` / `vars_survive_reimport` are met by `toyTable2` read into the
+    state `toyTable` left: three examples (not five, not four), `c` and `a,b` keep the ids 1 and 0 -/
+example : ∃ df, readCsvFrom {} digitOracle { delim := ',', header := some true } toyPrior (toyTable2.render ',' []) = .ok df ∧
+    df.examples.length = 3 ∧ lookup df.classes "c".toList = some 1 ∧ lookup df.classes "a,b".toList = some 0 := by
+  have toy2_wf : WellFormed ',' [] toyTable2 :=
+    {
+      d0 := by decide
+      dq := by decide
+      dn := by decide
+      eol_ok := Or.inl rfl
+      rect := by intro l hl; simp [Table.lines, Table.rows, toyTable2] at hl; rcases hl with rfl | rfl | rfl | rfl <;> rfl
+      width := by simp [toyTable2]
+      clean := by
+        intro l hl p hp
+        simp [Table.lines, Table.rows, toyTable2] at hl
+        rcases hl with rfl | rfl | rfl | rfl <;> simp at hp <;> rcases hp with rfl | rfl <;>
+          (refine ⟨?_, ?_⟩ <;> simp [Clean, needsQuote, isSpace] <;> decide)
+      visible := by
+        intro l hl
+        simp [Table.lines, Table.rows, toyTable2] at hl
+        rcases hl with rfl | rfl | rfl | rfl <;> simp [renderLine, renderField, esc, isBlank, isSpace]
+    }
+  have toy2_typed : TypedFrom digitOracle (some 0) false false (toyPrior.cols.map (·.dom)) toyPrior.classes toyTable2 :=
+    {
+      rows := by
+        intro r hr
+        simp [Table.rows, toyTable2] at hr
+        rcases hr with rfl | rfl | rfl <;>
+          simp [toyPrior, fieldsOf, fieldOut, fieldSeen, prep, rot, RowOK, OutOK, InputsOK, CellOK, Stable, isNumber, trim,
+            isBlank, isSpace, digitOracle]
+      cls := by
+        right
+        simp [Table.rows, toyTable2, toyPrior, fieldsOf, fieldOut, fieldSeen, prep, rot, Classif, outDom, specRows, outVal,
+          encode, lookup, isNumber, trim, isSpace, digitOracle]
+    }
+  obtain ⟨df, h1, h2, _, _, _, _, h7, _⟩ := rows_faithful_append {} rfl digitOracle ',' [] toyTable2
+    { delim := ',', header := some true } toyPrior rfl rfl rfl toy2_wf (by intro k hk; cases hk; decide)
+    (by simp [toyPrior])
+    (by intro c hc; simp [toyPrior] at hc; rcases hc with rfl | rfl <;> simp)
+    (by constructor <;> decide) toy2_typed
+  exact ⟨df, h1, h2, (h7 _ _ (by rfl)).1, (h7 _ _ (by rfl)).1⟩
+
+example : ∃ vars, setupTerminals { guards := true } false toyPrior.cols = .ok vars := ⟨_, rfl⟩
+
+/-- a history (the second table, `clear()`, an XRFF document) on the object in state `toyPrior` succeeds:
+    `class_map_continued` applies to it -/
+example : ClassInv toyPrior.classes ∧
+    ∃ df, finalHist {} digitOracle toyPrior
+      [.csv { delim := ',', header := some true } (toyTable2.render ',' []), .clear,
+       .xrff some (.doc [⟨['x'], false, "numeric".toList, []⟩, ⟨['c'], true, "nominal".toList, []⟩]
+                        (some [[['1'], ['c']], [['2'], ['e']]]))] = .ok df :=
+  ⟨by constructor <;> decide, _, rfl⟩
+
+/-- the XRFF document of the last example read into the object in state `toyPrior` (its columns are not those
+    of the document) meets the hypotheses of `rows_faithful_xrff_append` -/
+example : ∃ df : DF Nat, readXrffHFrom {} digitOracle some toyPrior
+    (.doc [⟨['x'], false, "numeric".toList, []⟩, ⟨['c'], true, "nominal".toList, []⟩]
+          (some [[['1'], ['c']], [['2'], ['e']]])) = .ok (df, 2) := by
+  obtain ⟨df, h, _⟩ := rows_faithful_xrff_append {} rfl digitOracle some toyPrior (by constructor <;> decide)
+    (.explicit [⟨['x'], false, "numeric".toList, []⟩] ⟨['c'], true, "nominal".toList, []⟩ [])
+    (by simp [XHeader.WF])
+    [[['1'], ['c']], [['2'], ['e']]]
+    (by
+      intro r hr
+      simp at hr
+      rcases hr with rfl | rfl <;>
+        simp [XHeader.k, XHeader.cols, colOf, colOfOut, fromWeka, rot, RowOKx, OutOK, InputsOK, CellOK, isNumber,
+          trim, isSpace, digitOracle])
+    (by
+      right
+      simp [toyPrior, XHeader.k, XHeader.cols, colOf, colOfOut, fromWeka, rot, Classif, outDom, specRows, outVal, encode,
+        lookup, isNumber, trim, isSpace, digitOracle])
+  exact ⟨df, h⟩
+
+/-- the code as found (`guards := false`): `y,b,c / 1,,3` read a second time into the dataframe it left
+    (column `b` has no domain) – the header record goes through `set_domain`, the NAME `b` makes the column a
+    text column and the example gets two inputs; after the fix the column keeps having no domain -/
+theorem old_header_types_column :
+    (readCsvRecsFrom { guards := false } digitOracle (some 0) true
+        ({ cols := [{ name := ['y'], dom := .dbl }, { name := ['b'], dom := .void }, { name := ['c'], dom := .dbl }] } : DF Nat)
+        [[['y'], ['b'], ['c']], [['1'], [], ['3']]]).map (fun df => (df.cols.map (·.dom), df.examples.map (·.input.length))) =
+      .ok ([.dbl, .str, .dbl], [2]) ∧
+    (readCsvRecsFrom { guards := true } digitOracle (some 0) true
+        ({ cols := [{ name := ['y'], dom := .dbl }, { name := ['b'], dom := .void }, { name := ['c'], dom := .dbl }] } : DF Nat)
+        [[['y'], ['b'], ['c']], [['1'], [], ['3']]]).map (fun df => (df.cols.map (·.dom), df.examples.map (·.input.length))) =
+      .ok ([.dbl, .void, .dbl], [1]) := ⟨rfl, rfl⟩
+
+/-- the code as found: an XRFF document read into a dataframe that has two columns leaves four columns and
+    no example (every instance has the wrong number of values) and returns 0; after the fix two and two -/
+theorem old_xrff_appends_columns :
+    (readXrffHFrom { guards := false } digitOracle some
+        ({ cols := [{ name := ['c'], dom := .dbl }, { name := ['x'], dom := .dbl }] } : DF Nat)
+        (.doc [⟨['x'], false, "numeric".toList, []⟩, ⟨['c'], true, "nominal".toList, []⟩]
+              (some [[['1'], ['u']], [['2'], ['v']]]))).map
+      (fun r => (r.1.cols.length, r.1.examples.length, r.2)) = .ok (4, 0, 0) ∧
+    (readXrffHFrom { guards := true } digitOracle some
+        ({ cols := [{ name := ['c'], dom := .dbl }, { name := ['x'], dom := .dbl }] } : DF Nat)
+        (.doc [⟨['x'], false, "numeric".toList, []⟩, ⟨['c'], true, "nominal".toList, []⟩]
+              (some [[['1'], ['u']], [['2'], ['v']]]))).map
+      (fun r => (r.1.cols.length, r.1.examples.length, r.2)) = .ok (2, 2, 2) := ⟨rfl, rfl⟩
 
 end Vita.C09
